@@ -238,12 +238,14 @@ func runC16(c *Ctx) {
 	c.Rule("K6 limit-is-error: in the methods of container.Parser and mux.Demuxer, a comparison of the number of parsed records (len of a receiver field) with a constant limit leads, when the limit is reached, directly to an error return - never to a break/continue that silently truncates this view of the file")
 	c.Rule("K7 canvas size: symbolic execution (S7) of the container parser's VP8X chunk walk: in every input class in which an ANMF chunk is walked, the overall Width/Height that GetFeatures and DecodeConfig report (the canvas, for an animation) are not assigned")
 	c.Rule("K5 registration: init calls image.RegisterFormat with a magic every RIFF....WEBP header matches and with this package's Decode and DecodeConfig")
-	c.NotCovered("width/height agreement between bitstream header parsers and the decoders (value-level); the VP8L alpha bit and VP8X alpha flag reflecting the decoded pixels; frame-count agreement of the parsers on long animations (limits)")
+	c.Rule("K8 header dimensions: the functions that extract width and height from a VP8 / VP8L bitstream header (container parser, demuxer/muxer helpers; for VP8 also the values the lossy decoder stores into its picture header) are reduced by the S8 evaluator to normal forms over the header bytes; all readers of one format have the same forms (same bytes, same 14-bit reduction, same +1)")
+	c.NotCovered("the VP8L decoder's own header read (it goes through the bit reader); the VP8L alpha bit and VP8X alpha flag reflecting the decoded pixels; frame-count agreement of the parsers on long animations (limits)")
 	for _, cf := range c.configsFor() {
 		p := c.load(cf[0], cf[1])
 		if p == nil {
 			continue
 		}
+		kernelHeaderDims(c, p)
 		checkPresence(c, p, "K1-presence", "FrameInfo", "AlphaData", 2)
 		c16Models(c, p)
 		c16Register(c, p)
